@@ -58,10 +58,12 @@ def history_strategy(tier):
                 strategies = list(draw(st.permutations(strategies)))  # a profile may list its strategies in any order
             models.append({"name": f"m{m}", "strategies": strategies, "load_gpu": draw(st.integers(0, 1)), "preloaded": draw(st.booleans()),
                            # a model takes time to load: until then it is pending on the worker, not loaded
-                           "load_time": draw(st.sampled_from([0, 0, 0, 2, 5, 9]))})
+                           "load_time": draw(st.sampled_from([0, 0, 0, 0, 0, 0, 2, 5, 9]))})
         op = st.one_of(
             st.tuples(st.just("submit"), st.integers(0, 2), st.integers(1, 5), st.integers(-1, 14)),
             st.tuples(st.just("submit"), st.integers(0, 2), st.integers(1, 5), st.integers(2, 10)),
+            # a late arrival that is more urgent than what is queued (the per-strategy queues are kept sorted by deadline)
+            st.tuples(st.just("submit"), st.integers(0, 2), st.integers(1, 2), st.integers(1, 4)),
             st.tuples(st.just("schedule")),
             st.tuples(st.just("schedule")),
             st.tuples(st.just("advance"), st.integers(1, 5)),
@@ -315,4 +317,4 @@ def execute(case):
     return res
 
 
-CHECKS = [Check("clockwork_history", execute, strategy=history_strategy, budget={"quick": 1500, "thorough": 40000})]
+CHECKS = [Check("clockwork_history", execute, strategy=history_strategy, budget={"quick": 6000, "thorough": 80000})]
